@@ -19,7 +19,11 @@ SBOM_FORMATS = ["cdx", "spdx", "syft"]
 ENV_POOL = [("all", "append", b"PATH", b"/x"), ("all", "delim", b"PATH", b":"), ("build", "override", b"CC", b"gcc"), ("launch", "default", b"PORT", b"8080"),
             ("process:web", "override", b"ROLE", b"web"), ("process:worker", "prepend", b"ROLE", b"w"), ("launch", "prepend", b"LD_LIBRARY_PATH", b"/l"),
             ("all", "override", b"EMPTY", b""), ("build", "override", b"RAW", b"\xff\xfe\x00\x80"), ("process:web", "append", b"RAWP", b"caf\xe9"),
-            ("process:web.1", "override", b"INSTANCE", b"1"), ("process:web.2", "override", b"INSTANCE", b"2")]
+            ("process:web.1", "override", b"INSTANCE", b"1"), ("process:web.2", "override", b"INSTANCE", b"2"),
+            # the same (behaviour, name, value) in scope "all" and in a narrower scope: each is a file of its own
+            ("all", "override", b"DUP", b"same"), ("build", "override", b"DUP", b"same"), ("process:web", "override", b"DUP", b"same"),
+            ("all", "default", b"DD", b"d"), ("launch", "default", b"DD", b"d"), ("all", "prepend", b"PP", b"x"), ("build", "prepend", b"PP", b"x"),
+            ("all", "delim", b"PP", b":"), ("build", "delim", b"PP", b":")]
 MD_GENERIC = [{"v": "1"}, {}, {"name": "x", "n": 3, "flag": True, "nested": {"k": ["a", "b"]}}, {"version": 7}, {"Version": "caps"},
               # parses as the typed metadata (extra keys are allowed there) - a kept layer must still keep every value
               {"version": "1.0", "extra": "keep-me", "nested": {"k": [1, 2]}, "build_id": 42}]
@@ -62,7 +66,8 @@ def concrete(sym, r, name=None):
         return dict(op="write_sboms", name=name, sboms=[[f, hx(b'{"sbom":"%s-%d"}' % (f.encode(), r.randrange(1000)))] for f in fmts])
     if sym == "wx":
         progs = r.sample(["p1", "p2", "p3"], r.randint(0, 3))
-        return dict(op="write_exec_d", name=name, programs=[[p, p] for p in progs])
+        # the program's name is one thing, the file it is copied from another ("p1b": same size and mode as p1, other content)
+        return dict(op="write_exec_d", name=name, programs=[[p, r.choice([p, p, "p1b" if p == "p1" else p])] for p in progs])
     if sym == "wf":
         files = [[r.choice(["data.txt", "bin/tool", "lib/libx.so", "deep/er/file", "env.build.txt"]), hx(b"content-%d" % r.randrange(1000))] for _ in range(r.randint(1, 3))]
         # symbolic links inside the layer (to a file, to a directory, dangling, relative upwards): legal layer content
@@ -390,6 +395,9 @@ def run_history(mon, base, hid, steps, names, sh, snapshots_out=None):
         with open(os.path.join(src, p), "wb") as f:
             f.write(b"#!/bin/sh\necho " + p.encode() + b"\n")
         os.chmod(os.path.join(src, p), {"p1": 0o755, "p2": 0o775, "p3": 0o700}[p])
+    with open(os.path.join(src, "p1b"), "wb") as f:
+        f.write(b"#!/bin/sh\necho pB\n")
+    os.chmod(os.path.join(src, "p1b"), 0o755)
     case = {"steps": jsonable(steps), "names": names, "_layers": layers, "umask": getattr(mon, "umask", 0o022)}
     try:
         mon.call({"op": "init", "layers_dir": layers, "app_dir": os.path.join(root, "app"), "bp_dir": os.path.join(root, "bp")})
